@@ -46,11 +46,19 @@ def main():
     ap.add_argument("--families", default="")
     ap.add_argument("--stop-at-first", action="store_true")
     ap.add_argument("--replay-file")
+    ap.add_argument("--case-json", help="check one case {family, input} given as JSON text; prints {failed: bool, expected, actual}")
     ap.add_argument("--jobs", type=int, default=min(16, os.cpu_count() or 4))
     a = ap.parse_args()
     warnings.simplefilter("ignore")
     load_families()
 
+    if a.case_json:
+        cj = json.loads(a.case_json)
+        fam = base.FAMILIES[cj["family"]]
+        res = fam.check({"class": cj.get("class"), "input": cj["input"]})
+        print(json.dumps({"failed": res is not None, "expected": None if res is None else str(res.get("expected"))[:500],
+                          "actual": None if res is None else str(res.get("actual"))[:500], "class": None if res is None else res.get("class", cj.get("class"))}))
+        return 0
     if a.replay_file:
         doc = json.load(open(a.replay_file))
         fl = doc.get("failing_input")
